@@ -2137,6 +2137,10 @@ package exec
 //@   requires forall i Int :: 0 <= i && i < len(deref(args)) ==> deref(args)[i] != nil && wf(deref(args)[i])
 //@   modifies args, arr(deref(args))
 //@   decreases 3 * bwidth(deref(b)) + fargRank(nt(deref(b)))
+//@   lemma nt(deref(b)) == NT_FunctionSignatureNoArgs ==> nntc(deref(b)) == 0 && fargN(deref(b)) == 0
+//@   lemma nt(deref(b)) == NT_FunctionCallArgumentListEndArg ==> nntc(deref(b)) == 1 && fargN(deref(b)) == 1 && fargAt(deref(b), 0) == ntchild(deref(b), 0)
+//@   lemma nt(deref(b)) == NT_FunctionCallArgumentListArgWithNext ==> nntc(deref(b)) == 2 && fargN(deref(b)) == 1 + fargN(ntchild(deref(b), 1)) && fargAt(deref(b), 0) == ntchild(deref(b), 0) && fargNT(nt(ntchild(deref(b), 1)))
+//@   lemma nt(deref(b)) == NT_FunctionSignature || nt(deref(b)) == NT_FunctionCallArgumentList ==> nntc(deref(b)) == 1 && fargN(deref(b)) == fargN(ntchild(deref(b), 0)) && fargNT(nt(ntchild(deref(b), 0)))
 //@   ensures len(deref(args)) == old(len(deref(args))) + fargN(deref(b)) && len(deref(args)) <= cap(deref(args)) && wf(deref(args))
 //@   ensures arr(deref(args)) == old(arr(deref(args))) || fresh(deref(args))
 //@   ensures forall i Int :: 0 <= i && i < old(len(deref(args))) ==> deref(args)[i] == old(deref(args)[i])                     @earlier-arguments-kept
